@@ -605,5 +605,6 @@ func (b *boundPkg) printSchemaLine() {
 	if !b.printed {
 		b.printed = true
 		emit("sd schema "+b.ID+" "+recgen.SchemaEncoding(b.schema), "ok")
+		emit("se schema "+b.ID+" "+recgen.SchemaEncoding(b.schema), "ok") // the Lean encoder sub-driver has its own table
 	}
 }
